@@ -29,6 +29,11 @@ Composite operations are scripts of primitives ending in `Op.finalize p` (= the 
 release_all()`): `runScript`, `callAndWaitScript`, `asCompletedScript` below.  A raise or an early
 `close()` of the generator truncates the body — the finaliser still runs.
 
+Round 6 added the primitive operations the composite operations are made of between two of their own yield points
+(`aliveWorkers` = the property `pool.workers`, `submitW` = `Worker.submit` up to its `call`, `acquireAllCall`, `isAliveW`,
+`acquiredWorkers`); `Model/OwnerEnv.lean` runs `WorkerPool.run` / `call_and_wait` / `Worker.submit` as programs over them, and the
+harness replays `orchestrate.as_completed` as the script of them its body was observed to perform.
+
 Blocking acquisition (`acquire_by(blocking=True)`, no caller in the repo) is not modelled.
 -/
 namespace MlModel.Owner
@@ -133,11 +138,18 @@ inductive Op where
   | finalize (p : Pid)                                   -- `finally: release_all()` ending a pool operation
   | idleWorkers (p : Pid)                                -- `idle_workers()` (what `WorkerPool.iterate` polls; acquires nothing)
   | callW (p : Pid) (w : Wid)                            -- `w.call(...)` by a thread acting for `p` (the body of `run` / `call_and_wait`)
+  -- round 6: the pieces of the composite operations between two of their own yield points (clock reads, sleeps, waits)
+  | aliveWorkers (p : Pid) (twice : Bool)                -- the property `pool.workers` = `[c for c in self._workers if c.is_alive]`; `twice`: evaluated twice in a row (error message of `wait_until_alive`, courier_worker.py:315–321)
+  | submitW (p : Pid) (w : Wid) (stage : Nat)            -- `w.submit(task)` up to and including `call` (courier_utils.py:715–727): stage 0 from `wait_until_alive` (`is_alive`, evaluated once more when false: 603–611), 1 from the `is_alive` of its retry loop, ≥ 2 from `has_capacity`
+  | acquireAllCall (p : Pid)                             -- `self._acquire_all()` then `[c.call(..) for c in self._workers]` (`call_and_wait`, 325–329)
+  | isAliveW (p : Pid) (w : Wid)                         -- `task.is_alive` → `w.is_alive` by a thread acting for `p` (`as_completed`, orchestrate.py:517)
+  | acquiredWorkers (p : Pid)                            -- the property `pool.acquired_workers` = `[w for w in self._workers if w.is_locked(self)]` (`as_completed`, 531)
   deriving DecidableEq, Repr
 
 def Op.pool : Op → Pid
   | .acquireAll p _ _ | .releaseAll p _ | .nextIdle p _ _ | .releaseOne p _ _
-  | .releaseAllOrig p _ | .finalize p | .idleWorkers p | .callW p _ => p
+  | .releaseAllOrig p _ | .finalize p | .idleWorkers p | .callW p _
+  | .aliveWorkers p _ | .submitW p _ _ | .acquireAllCall p | .isAliveW p _ | .acquiredWorkers p => p
 
 /-- Operations of the repaired code (every release is owner-checked under the lock). -/
 def Op.repaired : Op → Bool
@@ -162,18 +174,27 @@ inductive K where
   | idleA (p : Pid) (w : Wid) (rest acc : List Wid)               -- `idle_workers`: awaiting `w.is_available(self)`
   | idleC (p : Pid) (w : Wid) (rest acc : List Wid)               -- … `w.has_capacity`
   | idleU (p : Pid) (w : Wid) (rest acc : List Wid)               -- … `w.is_alive`
+  | aliveU (p : Pid) (w : Wid) (rest acc : List Wid) (again : Option (List Wid))  -- `pool.workers`: awaiting `w.is_alive`
+  | subI (p : Pid) (w : Wid) (second : Bool)                      -- `submit`: awaiting `w.is_alive` (first / repeated evaluation)
+  | subC (p : Pid) (w : Wid)                                      -- `submit`: awaiting `w.has_capacity`
+  | acqCA (p : Pid) (w : Wid) (rest : List Wid) (got : Bool) (all : List Wid)   -- `call_and_wait`: awaiting `w.is_available(self)`
+  | acqCB (p : Pid) (w : Wid) (rest : List Wid) (got : Bool) (all : List Wid)   -- … `w.acquire_by(self)`
+  | callAll (p : Pid) (rest : List Wid)                           -- … `w.call(..)`, then the remaining workers
+  | acqW (p : Pid) (w : Wid) (rest acc : List Wid)                -- `acquired_workers`: awaiting `w.is_locked(self)`
   deriving DecidableEq, Repr
 
 def K.pool : K → Pid
   | .acqAllA p .. | .acqAllB p .. | .relAll p .. | .origA p .. | .origB p .. | .next1L p ..
   | .next1U p .. | .next2A p .. | .next2U p .. | .relOne p
-  | .next1C p .. | .next2C p .. | .idleA p .. | .idleC p .. | .idleU p .. => p
+  | .next1C p .. | .next2C p .. | .idleA p .. | .idleC p .. | .idleU p ..
+  | .aliveU p .. | .subI p .. | .subC p .. | .acqCA p .. | .acqCB p .. | .callAll p .. | .acqW p .. => p
 
 /-- Value returned by a finished pool operation. -/
 inductive Res where
   | unit
   | workers (ws : List Wid)
   | worker (w : Option Wid)
+  | code (n : Nat)                  -- `submitW`: 1 = the worker is not alive, 2 = it has no capacity (`unit` = the call was submitted)
   deriving DecidableEq, Repr
 
 /-- What the thread does next at pool level: enter a `Worker` method, or finish the operation
@@ -218,6 +239,32 @@ def idleLoop (p : Pid) : List Wid → List Wid → Next
   | [], acc => .finish (.workers acc.reverse) none
   | w :: rest, acc => .call ⟨w, p, .vRdLocked, true⟩ (.idleA p w rest acc)
 
+/-- `pool.workers` loop head (courier_worker.py:372–375); `again = some ws`: a second evaluation follows at once. -/
+def aliveLoop (p : Pid) : List Wid → List Wid → Option (List Wid) → Next
+  | [], acc, none => .finish (.workers acc.reverse) none
+  | [], _, some [] => .finish (.workers []) none
+  | [], _, some (w :: rest) => .call ⟨w, p, .iEnter, true⟩ (.aliveU p w rest [] none)
+  | w :: rest, acc, again => .call ⟨w, p, .iEnter, true⟩ (.aliveU p w rest acc again)
+
+/-- `[c.call(..) for c in self._workers]` (call_and_wait). -/
+def callLoop (p : Pid) : List Wid → Next
+  | [] => .finish .unit none
+  | w :: rest => .call ⟨w, p, .kEnter, true⟩ (.callAll p rest)
+
+/-- `_acquire_all()` inside `call_and_wait` (`num_workers = 0`: the loop breaks after the first worker while nothing
+has been acquired — `len(result) == num_workers`), followed by the calls. -/
+def acqCLoop (p : Pid) (all : List Wid) : List Wid → Bool → Next
+  | [], _ => callLoop p all
+  | w :: rest, got => .call ⟨w, p, .vRdLocked, true⟩ (.acqCA p w rest got all)
+
+def acqCIter (p : Pid) (all rest : List Wid) (got : Bool) : Next :=
+  if got then acqCLoop p all rest got else callLoop p all
+
+/-- `acquired_workers` loop head (courier_worker.py:262–264). -/
+def acqWLoop (p : Pid) : List Wid → List Wid → Next
+  | [], acc => .finish (.workers acc.reverse) none
+  | w :: rest, acc => .call ⟨w, p, .lRdLocked, true⟩ (.acqW p w rest acc)
+
 /-- Resume the pool operation with the value `b` returned by the `Worker` method. -/
 def resume : K → Bool → Next
   | .acqAllA p w rest acc n, b =>
@@ -240,6 +287,16 @@ def resume : K → Bool → Next
   | .idleA p w rest acc, b => if b then .call ⟨w, p, .cEnter, true⟩ (.idleC p w rest acc) else idleLoop p rest acc
   | .idleC p w rest acc, b => if b then .call ⟨w, p, .iEnter, true⟩ (.idleU p w rest acc) else idleLoop p rest acc
   | .idleU p w rest acc, b => idleLoop p rest (if b then w :: acc else acc)
+  | .aliveU p w rest acc again, b => aliveLoop p rest (if b then w :: acc else acc) again
+  | .subI p w second, b =>
+    if b then .call ⟨w, p, .cEnter, true⟩ (.subC p w)
+    else if second then .finish (.code 1) none else .call ⟨w, p, .iEnter, true⟩ (.subI p w true)
+  | .subC p w, b => if b then .call ⟨w, p, .kEnter, true⟩ (.relOne p) else .finish (.code 2) none
+  | .acqCA p w rest got all, b =>
+    if b then .call ⟨w, p, .aEnter, true⟩ (.acqCB p w rest got all) else acqCIter p all rest got
+  | .acqCB p _ rest got all, b => acqCIter p all rest (got || b)
+  | .callAll p rest, _ => callLoop p rest
+  | .acqW p w rest acc, b => acqWLoop p rest (if b then w :: acc else acc)
 
 /-- Begin an operation (`pw p` = `pool._workers`). -/
 def start (pw : Pid → List Wid) : Op → Next
@@ -251,6 +308,15 @@ def start (pw : Pid → List Wid) : Op → Next
   | .finalize p => relAllLoop p true (pw p)
   | .idleWorkers p => idleLoop p (pw p) []
   | .callW p w => .call ⟨w, p, .kEnter, true⟩ (.relOne p)
+  | .aliveWorkers p twice => aliveLoop p (pw p) [] (if twice then some (pw p) else none)
+  | .submitW p w stage =>
+    match stage with
+    | 0 => .call ⟨w, p, .iEnter, true⟩ (.subI p w false)
+    | 1 => .call ⟨w, p, .iEnter, true⟩ (.subI p w true)
+    | _ => .call ⟨w, p, .cEnter, true⟩ (.subC p w)
+  | .acquireAllCall p => acqCLoop p (pw p) (pw p) false
+  | .isAliveW p w => .call ⟨w, p, .iEnter, true⟩ (.relOne p)
+  | .acquiredWorkers p => acqWLoop p (pw p) []
 
 structure Thread where
   script : List Op := []
